@@ -116,10 +116,10 @@ func unquoteString(b []byte) ([]byte, int) {
 		if i >= len(b) {
 			return b, len(b)
 		}
-		if b[i] == '\r' || b[i] == '\n' {
-			return b[0:i], i
-		}
-		if b[i] == '"' {
+		if b[i] == '\r' || b[i] == '\n' || b[i] == '"' {
+			if i == 0 {
+				return nil, 0
+			}
 			return b[0:i], i
 		} else if b[i] == '\\' || b[i] >= utf8.RuneSelf {
 			break
@@ -137,12 +137,21 @@ func unquoteString(b []byte) ([]byte, int) {
 		if str == "" {
 			break
 		}
+		if str[0] >= utf8.RuneSelf {
+			// a byte that does not start a well-formed UTF-8 sequence ends the literal
+			if r, size := utf8.DecodeRuneInString(str); r == utf8.RuneError && size == 1 {
+				break
+			}
+		}
 		ch, _, tail, err = strconv.UnquoteChar(str, '"')
 		if err != nil {
 			break
 		}
 		res = append(res, string(ch)...)
 		str = tail
+	}
+	if len(str) == len(b) {
+		return nil, 0
 	}
 	return res, len(b) - len(str)
 }
